@@ -11,6 +11,9 @@ import sys
 
 
 def main(argv):
+    if argv and argv[0] == "mutants":
+        from .mutants import main as mmain
+        return mmain(argv[1:])
     ap = argparse.ArgumentParser(prog="hivesim")
     sub = ap.add_subparsers(dest="cmd", required=True)
     c = sub.add_parser("check")
@@ -24,6 +27,8 @@ def main(argv):
     s.add_argument("--n", type=int, default=24)
     s.add_argument("--props", default="C02,C03,C06,C09,C17")
     sub.add_parser("setup")
+    mu = sub.add_parser("mutants")
+    mu.add_argument("rest", nargs=argparse.REMAINDER)
     w = sub.add_parser("c01-worker")
     w.add_argument("jobfile")
     a = ap.parse_args(argv)
@@ -44,6 +49,9 @@ def main(argv):
     if a.cmd == "selftest":
         from .selftest import selftest
         return selftest(a.n, a.props.split(","))
+    if a.cmd == "mutants":
+        from .mutants import main as mmain
+        return mmain(a.rest)
     if a.cmd == "c01-worker":
         from .c01 import worker_main
         return worker_main(a.jobfile)
